@@ -75,6 +75,7 @@ class C20(Check):
                            {'K': 2, 'Pmax': 6 if tier == 'quick' else 8, 'mmax': 3, 'm_form': 'np.uint8'}, split=3,
                            witness_every=7))
         cfgs.append(Config('wrong_input', self.wrong_input, {}))
+        cfgs.append(Config('library_raised_task_error', self.library_error, {}, split=2))
         return cfgs
 
     def _call(self, c, K, lim, env=None, fault=None, task_fault=None, nproc=1, modes=None, labels=None, joint=False):
@@ -272,6 +273,42 @@ class C20(Check):
             ok = raised is None and res is not None
         c.prove('donor_shortage_is_runtime_error', ok,
                 detail={'must_raise': must_raise, 'raised': repr(raised), 'sizes': sizes, 'm': m})
+        c.prove('pool_released_when_call_raises', len(ml.pools) == 1 and ml.pools[0].released)
+
+    def library_error(self, c):
+        """A failure the LIBRARY raises inside an optimisation task (a sparsity weight that is neither a number
+        nor an array reaches compute_lambda_sum in the worker): it must surface as that error -- which means it
+        must also survive the trip from the worker to the parent."""
+        Rp = self.R
+        K = 2
+        joint = bool(int(c.int('joint', 0, 1)))
+        c.notes.update({'kind': 'library_error', 'joint': joint})
+        data = np.zeros((4, 1))
+        bad_lambda = [[0.1]]                       # a nested list: documented as unusable
+        ml = MainLoop(Rp, c, K, 1, modes={'initial': 'summary', 'optimise': 'real'}, admm='real',
+                      label_hook=lambda r, T: [(i + r) % K for i in range(T)])
+        ml.s_initial = lambda k, d: [i % K for i in range(len(d))]
+        stubs.install_linalg(eigh=lambda M, **k: (np.array([np.asarray(M)[0, 0]]), np.array([[1.0]])),
+                             norm=stubs.norm_exact)
+        res, raised = None, None
+        with ml:
+            try:
+                kw = dict(window_size=1, num_clusters=K, iteration_limit=2, min_cluster_size=1, sparsity_weight=bad_lambda,
+                          label_switching_cost=1.0)
+                if joint:
+                    res = Rp.front_end.ticc_joint_labels([data[:2], data[2:]], **kw)
+                else:
+                    res = Rp.front_end.ticc_labels(data, **kw)
+            except (core.PathAbort, core.Unsupported, core.HarnessError):
+                raise
+            except BaseException as exc:
+                raised = exc
+        if isinstance(raised, stubs.Hang):
+            c.prove('task_fault_propagates_unchanged', False, detail={'hangs': str(raised)})
+            return
+        c.prove('task_fault_propagates_unchanged',
+                res is None and isinstance(raised, ValueError) and 'ambda' in str(raised),
+                detail={'raised': repr(raised)})
         c.prove('pool_released_when_call_raises', len(ml.pools) == 1 and ml.pools[0].released)
 
     def wrong_input(self, c):
